@@ -74,6 +74,24 @@ fn size_for(len: usize, n: usize) -> Option<usize> {
 /// `rx` = [[board, chip, id, eom, size class, segment]...] of a message of `n` chunks.
 /// A board other than `dev`: usually one of the three whose device id is closest in Hamming distance (the
 /// ids of some boards differ in one or two bits only), sometimes any other.
+/// Packet / channel sequence counters of the chunks of one message: arbitrary, or consecutive from a start
+/// value at or just below the counter's maximum (so that it wraps inside the message), or all at an extreme.
+pub fn seq_counters<R: Rng>(rng: &mut R, n: usize) -> Vec<(u32, u16)> {
+    match rng.gen_range(0..6) {
+        0 | 1 => (0..n).map(|_| (rng.gen(), rng.gen())).collect(),
+        2 => {
+            let (p0, c0) = (u32::MAX - rng.gen_range(0..3), u16::MAX - rng.gen_range(0..3));
+            (0..n).map(|k| (p0.wrapping_add(k as u32), c0.wrapping_add(k as u16))).collect()
+        }
+        3 => (0..n).map(|_| (u32::MAX, u16::MAX)).collect(),
+        4 => (0..n).map(|_| (0, 0)).collect(),
+        _ => {
+            let (p0, c0): (u32, u16) = (rng.gen(), rng.gen());
+            (0..n).map(|k| (p0.wrapping_add(k as u32), c0.wrapping_add(k as u16))).collect()
+        }
+    }
+}
+
 pub fn near_miss_dev<R: Rng>(rng: &mut R, devs: &[u32], dev: u32) -> u32 {
     let mut others: Vec<u32> = devs.iter().copied().filter(|&d| d != dev).collect();
     others.sort_by_key(|&d| ((d ^ dev).count_ones(), d));
@@ -105,8 +123,10 @@ pub fn concretize_rx<R: Rng>(rng: &mut R, rx: &[Value], n: usize) -> Vec<(String
     let msg = f.pack();
     let size = size_for(msg.len(), n).expect("message too short for the chunk count");
     let parts: Vec<&[u8]> = msg.chunks(size).collect();
+    let counters = seq_counters(rng, rx.len());
     rx.iter()
-        .map(|c| {
+        .enumerate()
+        .map(|(ri, c)| {
             let c = c.as_array().unwrap();
             let g = |k: usize| c[k].as_u64().unwrap();
             let seg = g(5) as usize;
@@ -117,7 +137,7 @@ pub fn concretize_rx<R: Rng>(rng: &mut R, rx: &[Value], n: usize) -> Vec<(String
             let board = if g(0) == 1 { &b1 } else { &b2 };
             (
                 board.0.clone(),
-                ChunkFields { dev: board.1, pseq: rng.gen(), cseq: rng.gen(), chip: if g(1) == 1 { chip } else { (chip + 1) % 4 },
+                ChunkFields { dev: board.1, pseq: counters[ri].0, cseq: counters[ri].1, chip: if g(1) == 1 { chip } else { (chip + 1) % 4 },
                               flags: g(3) as u8, id: g(2) as u16, payload }.pack(),
             )
         })
@@ -176,9 +196,11 @@ pub fn replay(run: &mut Runner, path: &str, seed: u64, concretisations: usize) {
             let dev = *devs.choose(&mut rng).unwrap();
             let other_dev = near_miss_dev(&mut rng, &devs, dev);
             let chip = rng.gen_range(0..4u8);
+            let counters = seq_counters(&mut rng, rx.len());
             let raw: Vec<Vec<u8>> = rx
                 .iter()
-                .map(|c| {
+                .enumerate()
+                .map(|(ri, c)| {
                     let c = c.as_array().unwrap();
                     let (board, chipk, id, eom, seg) = (
                         c[0].as_u64().unwrap(),
@@ -189,8 +211,8 @@ pub fn replay(run: &mut Runner, path: &str, seed: u64, concretisations: usize) {
                     );
                     ChunkFields {
                         dev: if board == 1 { dev } else { other_dev },
-                        pseq: rng.gen(),
-                        cseq: rng.gen(),
+                        pseq: counters[ri].0,
+                        cseq: counters[ri].1,
                         chip: if chipk == 1 { chip } else { (chip + 1) % 4 },
                         flags: eom as u8,
                         id: id as u16,
@@ -233,6 +255,11 @@ pub fn random(run: &mut Runner, seed: u64, count: u64) {
         let mut chunks = split_chunks(dev, chip, &msg, size);
         if chunks.len() > 400 {
             continue;
+        }
+        // sequence counters: arbitrary, consecutive across their maximum, or stuck at an extreme
+        for (c, (p, q)) in chunks.iter_mut().zip(seq_counters(&mut rng, 400)) {
+            c.pseq = p;
+            c.cseq = q;
         }
         let n = chunks.len();
         let fault = *["none", "none", "drop", "dup", "board", "chip", "eom", "resize", "idgap", "swapids", "shiftids", "uneven", "longlast"]
